@@ -60,6 +60,18 @@ CHECKS.update({
          "Byte-identical transcripts (decode, render, velocity, pairing, full tracker dump after every step) between the std build and the libraries built with default-features=false, features=[alloc]; serde round trip of frames and tracker states incl. continued behaviour.",
          "std-only time stamps are stripped from the transcript; serde_json with float_roundtrip is the only format exercised.", "3 C20"),
 })
+
+CHECKS.update({
+ "C16": ("fault_enumeration", "Hypothesis-generated feeds x segmentations x delays x connection drops against the real binaries (pty/TCP/log black box); expected line sequence oracle",
+         "Well-formed lines interleaved with 27 kinds of malformed line, cut anywhere with pauses on both sides of the 50 ms read timeout, dropped at arbitrary byte offsets with and without --retry-tcp; the well-formed lines must be processed exactly once in order by both clients, the clients must survive, exit cleanly on disconnect or reconnect and keep their aircraft.",
+         "Timing is requested, not controlled: the verdict never depends on measured time. Failures that depend on kernel scheduling may not reproduce on every replay (replay retries 5 times).", "5 C16"),
+ "C17": ("exploration", "Hypothesis-generated operator sessions (keys, key bursts, SGR mouse, resizes, traffic, expiry, option sets) on a real pty; liveness / exit status / termios / escape-sequence oracle; CLI invalid-value grammar",
+         "After every step the radar process must be alive without a panic; quit (q / Ctrl-C, also while waiting for the connection) must exit 0 with termios restored, mouse reporting off and the cursor visible; invalid option values must be clap usage errors.",
+         "Each step waits 120 ms for the event loop; the terminal is a pty driven by a minimal VT emulator, not a real terminal emulator.", "5 C17"),
+ "C18": ("exploration", "Hypothesis-generated scenarios; screen (VT-emulated) vs tracker state computed by the real library (differential); map metamorphic relations (direction, proportionality, zoom, pan, reset)",
+         "Airplanes tab rows and titles equal the tracker's records, Stats totals equal added events / peak count, markers lie on the correct side of the centre at proportional offsets (self-calibrated), view controls leave the tables unchanged and reset restores the map cell for cell.",
+         "Expected table content is produced by rsadsb_common (helper) from the same frames; marker cells are recognised by colour with --disable-heading/--disable-track.", "5 C18"),
+})
 NOT_YET = {}
 ALL = [f"C{i:02d}" for i in range(1, 21)]
 
@@ -94,6 +106,10 @@ def main():
         "engines": [
             {"name": "vcheck", "path": "harness/vcheck", "serves_properties": [p for p in ALL if p in CHECKS and p not in ("C16","C17","C18")],
              "kind_free_text": "Rust binary: proptest 1.11 (TestRunner, fixed ChaCha seeds, shrinking), exhaustive enumerators, reference models; links the libraries from /repo's working tree by path"},
+            {"name": "vworker", "path": "harness/vworker", "serves_properties": ["C20"],
+             "kind_free_text": "differential partner process: same transcript code linked against the libraries built alloc-only (no std)"},
+            {"name": "pyharness", "path": "pyharness", "serves_properties": ["C16", "C17", "C18"],
+             "kind_free_text": "Python 3.11 + Hypothesis 6.168 (python3-vt): drives the release binaries radar and 1090 built from /repo over a pty and TCP, VT emulator, feed server; expected values from `vcheck helper` (the real libraries)"},
         ],
         "checks": checks,
         "not_applicable": na,
